@@ -376,8 +376,32 @@ def plan_c11(K, ctx):
     }
 
 
+# ------------------------------------------------------------------------------------------------ C15
+def plan_c15(K, ctx):
+    depth = 3 if ctx.tier == "quick" else 4
+    cfg = ("SPECIFICATION Spec\n" + consts(DEPTH=depth, SEEDS=1) +
+           "INVARIANT CastRoundTrip\nINVARIANT TaskBackIffEmptyBudget\nINVARIANT UnwrapMatchesOnly\nINVARIANT CompatibleIsCast\nINVARIANT Emit\nCHECK_DEADLOCK FALSE\n")
+
+    def nontrivial(c):
+        return c["op"] == "pipe" or len(set(c["ops"])) > 1
+
+    K.parallel([(lambda f=f: K.pipeline(ctx, f, "c15", "MC_C15", cfg, "J_C15", nontrivial, workers=5,
+                                        shards=4 if ctx.tier == "thorough" else 2)) for f in K.FORMATS])
+    return {
+        "note": f"Lifecycle.tla (M3): all operation sequences of length {depth} over 9-13 operations (is_*, try_into_*, std TryFrom, "
+                "try_into_task_compatible, cast_to_task, try_cast_to_sentence on task and on value, get_term, format-then-parse) from term / sentence "
+                "/ task values (empty and non-empty budget) of BOTH data models; the equations of C15 are invariants of the behaviours; every "
+                "behaviour is replayed on real values with result and projected value compared after every step. Classification: all 32 subsets "
+                "of the five items x 9 junction terms x {dense, spaced} x 3 formats through both parsers; an accepted input must have the kind "
+                "given by (budget, term, punctuation). The kind clause of format-then-parse is also checked by C01's judge on every round trip.",
+        "rule": "one case = (start value, operation sequence, data model) or (item subset, junction term, spacing, format); non-trivial = more than one distinct operation",
+        "assumptions": TRUSTED,
+    }
+
+
 PLANS = {
     "C01": plan_c01,
+    "C15": plan_c15,
     "C11": plan_c11,
     "C16": plan_c16,
     "C06": lambda K, ctx: eqhash_plan(K, ctx, "C06"),
@@ -395,7 +419,7 @@ PLANS = {
 
 
 # ------------------------------------------------------------------------------------------------ replay / selftest
-JUDGE_OF = {"C11": "J_C11", "C16": "J_C16", "C06": "J_C06", "C07": "J_C06", "C04": "J_Garbage", "C05": "J_Garbage", "C12": "J_Garbage", "C08": "J_C08", "C09": "J_Pipe", "C10": "J_Pipe", "C01": "J_C01", "C17": "J_C17", "C14": "J_C14", "C13": "J_C13"}
+JUDGE_OF = {"C15": "J_C15", "C11": "J_C11", "C16": "J_C16", "C06": "J_C06", "C07": "J_C06", "C04": "J_Garbage", "C05": "J_Garbage", "C12": "J_Garbage", "C08": "J_C08", "C09": "J_Pipe", "C10": "J_Pipe", "C01": "J_C01", "C17": "J_C17", "C14": "J_C14", "C13": "J_C13"}
 
 
 def replay(K, pid, path, seed):
